@@ -984,6 +984,62 @@ fn resources_of(root: &J, ty: &str) -> Option<J> {
     None
 }
 
+/// Two clauses over the same container that differ only inside their filter
+/// (`P[ k == v1 ].x ..` and `P[ k == v2 ].x ..`), or two type blocks of different types.
+fn paired_filter_lines(r: &mut Rng, root: &J) -> Option<Vec<Line>> {
+    // containers whose elements are maps sharing a discriminating key with >= 2 distinct scalar values
+    let mut cands: Vec<(Vec<Seg>, bool, String, J, J, String)> = Vec::new();
+    for p in doc::all_paths(root) {
+        let (elems, is_list): (Vec<&J>, bool) = match doc::at(root, &p) {
+            Some(J::List(xs)) => (xs.iter().collect(), true),
+            Some(J::Map(kv)) => (kv.iter().map(|(_, v)| v).collect(), false),
+            _ => continue,
+        };
+        let maps: Vec<&Vec<(String, J)>> = elems.iter().filter_map(|e| if let J::Map(m) = e { Some(m) } else { None }).collect();
+        if maps.len() < 2 {
+            continue;
+        }
+        for (k, v1) in maps[0].iter() {
+            if !matches!(v1, J::Str(_) | J::Int(_) | J::Bool(_)) || !doc::is_guard_literal_safe(v1) {
+                continue;
+            }
+            for m in maps.iter().skip(1) {
+                if let Some((_, v2)) = m.iter().find(|(kk, _)| kk == k) {
+                    if v2 != v1 && matches!(v2, J::Str(_) | J::Int(_) | J::Bool(_)) && doc::is_guard_literal_safe(v2) {
+                        // another key to look at
+                        if let Some((x, _)) = maps[0].iter().find(|(kk, _)| kk != k) {
+                            cands.push((p.clone(), is_list, k.clone(), v1.clone(), v2.clone(), x.clone()));
+                        }
+                    }
+                }
+            }
+        }
+    }
+    if cands.is_empty() {
+        return None;
+    }
+    let (p, _is_list, k, v1, v2, x) = cands[r.usize(cands.len())].clone();
+    let base: Vec<Part> = p.iter().map(|sg| match sg { Seg::Key(k) => Part::Key(k.clone()), Seg::Idx(i) => Part::Idx(*i as i32) }).collect();
+    let mk = |v: &J, r: &mut Rng| -> Line {
+        let mut parts = base.clone();
+        if !_is_list {
+            parts.push(Part::Star);
+        }
+        parts.push(Part::Filter { cap: None, lines: vec![Line { alts: vec![Clause::Cmp(Cmp { not: false, q: Query { some: false, parts: vec![Part::Key(k.clone())] }, op: Op::Eq, opnot: false, rhs: Some(Rhs::Lit(v.clone())), msg: None })] }] });
+        parts.push(Part::Key(x.clone()));
+        let (op, opnot) = *r.pick(&[(Op::Exists, false), (Op::IsString, false), (Op::IsInt, false), (Op::Empty, true), (Op::IsStruct, true)]);
+        Line { alts: vec![Clause::Cmp(Cmp { not: false, q: Query { some: false, parts }, op, opnot, rhs: None, msg: None })] }
+    };
+    let l1 = mk(&v1, r);
+    let mut l2 = mk(&v2, r);
+    // make the two clauses differ only in the filter: same operator on both
+    if let (Clause::Cmp(a), Clause::Cmp(b)) = (&l1.alts[0], &mut l2.alts[0]) {
+        b.op = a.op;
+        b.opnot = a.opnot;
+    }
+    Some(vec![l1, l2])
+}
+
 pub fn gen_prog(r: &mut Rng, root: &J, o: &GenOpts) -> Prog {
     let cfn = matches!(doc::at(root, &[Seg::Key("Resources".into())]), Some(J::Map(_)));
     let mut g = Gen { r, o, refs: vec![], prules: vec![], var_counter: 0, cap_counter: 0, cfn };
@@ -1025,6 +1081,25 @@ pub fn gen_prog(r: &mut Rng, root: &J, o: &GenOpts) -> Prog {
             vec![]
         };
         let mut body = g.gen_body(root, o.max_depth, &vars, true, true, o.max_lines);
+        // two clauses that differ only inside a filter
+        if g.r.chance(1, 4) {
+            if let Some(ls) = paired_filter_lines(g.r, root) {
+                for l in ls {
+                    let at = g.r.usize(body.lines.len() + 1);
+                    body.lines.insert(at, l);
+                }
+            }
+        }
+        // two type blocks of different types in one rule
+        if cfn && g.r.chance(1, 5) {
+            let mut tys: Vec<&str> = doc::CFN_TYPES.to_vec();
+            g.r.shuffle(&mut tys);
+            for ty in tys.iter().take(2) {
+                let (op, opnot) = *g.r.pick(&[(Op::Exists, false), (Op::Exists, true), (Op::IsStruct, false)]);
+                let tb = Clause::Type { ty: (*ty).to_string(), when: vec![], body: Body { lets: vec![], lines: vec![Line { alts: vec![Clause::Cmp(Cmp { not: false, q: Query { some: false, parts: vec![Part::Key("Properties".into())] }, op, opnot, rhs: None, msg: None })] }] } };
+                body.lines.push(Line { alts: vec![tb] });
+            }
+        }
         // two long lists in the document: compare them element-wise (query == query)
         if matches!(doc::at(root, &[Seg::Key("long_a".into())]), Some(J::List(_))) && g.r.chance(1, 2) {
             let (l, rr) = if g.r.chance(1, 2) { ("long_a", "long_b") } else { ("long_b", "long_a") };
@@ -1033,6 +1108,24 @@ pub fn gen_prog(r: &mut Rng, root: &J, o: &GenOpts) -> Prog {
             body.lines.insert(at, Line { alts: vec![Clause::Cmp(c)] });
         }
         rules.push(Rule { name: names[i].clone(), when, body });
+    }
+    // timestamps in the document: parse them and compare with a fixed instant
+    if o.functions {
+        let stamps: Vec<Vec<Seg>> = doc::all_paths(root)
+            .into_iter()
+            .filter(|p| matches!(doc::at(root, p), Some(J::Str(s)) if s.len() >= 10 && s.as_bytes()[4] == b'-' && s.as_bytes()[7] == b'-' && s[..4].chars().all(|c| c.is_ascii_digit())))
+            .collect();
+        if !stamps.is_empty() && g.r.chance(1, 4) {
+            let p = stamps[g.r.usize(stamps.len())].clone();
+            let parts: Vec<Part> = p.iter().map(|sg| match sg { Seg::Key(k) => Part::Key(k.clone()), Seg::Idx(i) => Part::Idx(*i as i32) }).collect();
+            let threshold = *g.r.pick(&[1_704_067_200i64, 1_724_198_400, 1_724_230_800, 1_724_166_000, 0]);
+            let op = *g.r.pick(&[Op::Ge, Op::Lt, Op::Eq]);
+            let body = Body {
+                lets: vec![Let { name: "ts".into(), val: Arg::Func(Box::new(Func { name: "parse_epoch".into(), args: vec![Arg::Query(Query { some: false, parts })] })) }],
+                lines: vec![Line { alts: vec![Clause::Cmp(Cmp { not: false, q: Query { some: false, parts: vec![Part::Var("ts".into())] }, op, opnot: false, rhs: Some(Rhs::Lit(J::Int(threshold))), msg: None })] }],
+            };
+            rules.push(Rule { name: format!("{}ts", o.rule_prefix), when: vec![], body });
+        }
     }
     let mut default_lines = Vec::new();
     if o.default_clauses && g.r.chance(1, 6) {
